@@ -156,52 +156,70 @@ theorem length_moveElem (xs : List α) (d s : Nat) : (moveElem xs d s).length = 
 theorem move_other (t : Tree) (d s : Nat) (h1 : t.kind ≠ .arr) : t.stepHere (.move d s) = (.err .unsupported, t) := by
   cases t <;> simp [Tree.kind] at h1 <;> rfl
 
-theorem here_move (n : NodeM) (d s : Nat) (hr : n.repOk = true) (hn : n.isRaw = false)
-    (hs : n.moveSafe d s = true) : Refines (n.stepHere (.move d s)) (n.abs.stepHere (.move d s)) := by
+theorem moveElem_oob {α : Type} (xs : List α) (d s : Nat) (h : xs.length ≤ d ∨ xs.length ≤ s) :
+    moveElem xs d s = xs := by
+  unfold moveElem
+  rw [if_neg (by omega)]
+
+/-- closing step shared by the three situations of `Move` -/
+theorem move_close (n : NodeM) (l : Nat) (st st' : List NodeM) (d s : Nat) (a1 : (NodeM.arr l st).abs = n.abs)
+    (hr : repElems st = true) (hl : l = countLive NodeM.live st)
+    (key : st'.filter NodeM.live = moveElem (st.filter NodeM.live) d s) (hmem : ∀ x ∈ st', x ∈ st) :
+    Refines (Ret.ok, NodeM.arr l st') ((NodeM.arr l st).abs.stepHere (.move d s)) := by
+  refine ⟨rfl, ?_, ?_⟩
+  · simp only [NodeM.abs, Tree.stepHere]
+    rw [absElems_eq, key, map_moveElem, ← absElems_eq]
+  · simp only [NodeM.repOk, Bool.and_eq_true, decide_eq_true_eq]
+    refine ⟨?_, ?_⟩
+    · rw [repElems_iff]
+      intro x hx hlx
+      exact (repElems_iff st).mp hr x (hmem x hx) hlx
+    · unfold countLive
+      rw [key, length_moveElem]; exact hl
+
+theorem here_move (n : NodeM) (d s : Nat) (hr : n.repOk = true) (hn : n.isRaw = false) :
+    Refines (n.stepHere (.move d s)) (n.abs.stepHere (.move d s)) := by
   have hcr := checkRaw_of_not_raw n hn
   have hka := kind_abs n hr
-  simp only [NodeM.moveSafe, hcr] at hs
   simp only [NodeM.stepHere, hcr]
   by_cases hk : n.kind = .arr
   · rw [if_neg (by simp [hk])]
     obtain ⟨a1, a2⟩ := skipAll_spec n hr
     obtain ⟨l, st, hshape⟩ := skipAll_arr_shape n hk hn
-    rw [hshape] at a1 a2 hs ⊢
+    rw [hshape] at a1 a2 ⊢
     simp only [NodeM.repOk, Bool.and_eq_true, decide_eq_true_eq] at a2
-    simp only [Bool.or_eq_true, beq_iff_eq, Bool.and_eq_true, decide_eq_true_eq] at hs
     rw [← a1]
-    -- the key fact, in both situations
-    have key : (moveElem st (if l ≠ st.length then remapIdx NodeM.live st d else d)
-        (if l ≠ st.length then remapIdx NodeM.live st s else s)).filter NodeM.live =
-        moveElem (st.filter NodeM.live) d s := by
-      by_cases hne : l ≠ st.length
-      · rw [if_pos hne, if_pos hne]
-        have hds : d < l ∧ s < l := by
-          rcases hs with h | h
-          · exact absurd h.symm hne
-          · exact h
-        obtain ⟨pd, xd, d1, d2, d3, d4, d5⟩ := slotAt_spec NodeM.live l st d a2.2 hds.1
-        obtain ⟨ps, xs, s1, s2, s3, s4, s5⟩ := slotAt_spec NodeM.live l st s a2.2 hds.2
-        have hne' : st.length ≠ l := fun h => hne h.symm
-        simp only [slotAt, if_pos hne'] at d1 s1
-        simp only [remapIdx, d1, s1, Option.getD_some]
-        exact filter_moveElem NodeM.live st d s pd ps xd xs d2 d3 d5 s2 s3 s5
-      · have heq : l = st.length := by simpa using hne
-        rw [if_neg hne, if_neg hne]
-        have hall := countLive_eq_length NodeM.live st (by omega)
-        have hfe : st.filter NodeM.live = st := List.filter_eq_self.mpr hall
-        rw [hfe]
-        exact List.filter_eq_self.mpr (fun x hx => hall x (mem_moveElem st d s x hx))
-    refine ⟨rfl, ?_, ?_⟩
-    · simp only [NodeM.abs, Tree.stepHere]
-      rw [absElems_eq, key, map_moveElem, ← absElems_eq]
-    · simp only [NodeM.repOk, Bool.and_eq_true, decide_eq_true_eq]
-      refine ⟨?_, ?_⟩
-      · rw [repElems_iff]
-        intro x hx hl
-        exact (repElems_iff st).mp a2.1 x (mem_moveElem st _ _ x hx) hl
-      · unfold countLive
-        rw [key, length_moveElem]; exact a2.2
+    simp only
+    by_cases hne : l ≠ st.length
+    · rw [if_pos hne]
+      have hflen : (st.filter NodeM.live).length = l := by rw [a2.2]; rfl
+      cases hd : nthLive NodeM.live st d with
+      | none =>
+        simp only
+        have := (nthLive_none NodeM.live st d).mp hd
+        exact move_close n l st st d s a1 a2.1 a2.2
+          (by rw [moveElem_oob _ _ _ (Or.inl (by rw [hflen, a2.2]; exact this))]) (fun x hx => hx)
+      | some pd =>
+        cases hs : nthLive NodeM.live st s with
+        | none =>
+          simp only
+          have := (nthLive_none NodeM.live st s).mp hs
+          exact move_close n l st st d s a1 a2.1 a2.2
+            (by rw [moveElem_oob _ _ _ (Or.inr (by rw [hflen, a2.2]; exact this))]) (fun x hx => hx)
+        | some ps =>
+          simp only
+          obtain ⟨xd, d2, d3, _, d5⟩ := nthLive_some NodeM.live st d pd hd
+          obtain ⟨xs, s2, s3, _, s5⟩ := nthLive_some NodeM.live st s ps hs
+          exact move_close n l st _ d s a1 a2.1 a2.2
+            (filter_moveElem NodeM.live st d s pd ps xd xs d2 d3 d5 s2 s3 s5)
+            (fun x hx => mem_moveElem st pd ps x hx)
+    · have heq : l = st.length := by simpa using hne
+      rw [if_neg hne]
+      have hall := countLive_eq_length NodeM.live st (by omega)
+      have hfe : st.filter NodeM.live = st := List.filter_eq_self.mpr hall
+      exact move_close n l st _ d s a1 a2.1 a2.2
+        (by rw [hfe]; exact List.filter_eq_self.mpr (fun x hx => hall x (mem_moveElem st d s x hx)))
+        (fun x hx => mem_moveElem st d s x hx)
   · rw [if_pos (by simpa using hk), move_other _ _ _ (by rw [← hka]; exact hk)]
     exact ⟨rfl, rfl, hr⟩
 
